@@ -334,6 +334,11 @@ func (p *Properties) UnpackWillProperties(bufr *bytes.Buffer) error {
 // of bytes used to store the Prop data and any error in decoding them
 func (p *Properties) Unpack(bufr *bytes.Buffer, packetType byte) error {
 	var err error
+	// The short forms of the acknowledgement and DISCONNECT packets end before the property length:
+	// an absent length means 0 (a length that is cut short inside its encoding is malformed).
+	if bufr.Len() == 0 {
+		return nil
+	}
 	length, err := EncodeRemainLength(bufr)
 	// 整个buffer最多只能读到length这么长
 	if err != nil {
